@@ -1,0 +1,38 @@
+//go:build verif
+
+// Contracts for the deductive verifier in /verif (comment-only; compiled only with -tags verif).
+package parser
+
+//@ import unstructured "k8s.io/apimachinery/pkg/apis/meta/v1/unstructured"
+//@ import resource "k8s.io/cli-runtime/pkg/genericclioptions/resource"
+
+// ---------------------------------------------------------------------------------------------
+// Malformed documents are always reported as severe (not fatal), irrelevant kinds are skipped silently (C13, C12)
+// ---------------------------------------------------------------------------------------------
+
+//@ import logger "github.com/np-guard/netpol-analyzer/pkg/logger"
+// a usable logger: the default implementation holds its underlying log.Logger
+//@ pred loggerOK(l logger.Logger) = l != nil && (dyntype(l, *logger.DefaultLogger) ==> (unwrap(l, *logger.DefaultLogger) != nil && unwrap(l, *logger.DefaultLogger).l != nil))
+
+//@ func malformedYamlDoc
+//@   ensures [C13] severe: res != nil && fresh(res) && res.severe && !res.fatal && res.err != nil
+
+//@ func logError
+//@   requires fpe != nil && fpe.err != nil && loggerOK(l)
+//@   ensures [C13] pure: fpe.severe == old(fpe.severe) && fpe.fatal == old(fpe.fatal)
+
+// the kinds the analysis uses: exactly those for which an empty typed object exists
+//@ pred usedKind(kind string) = kind == "Pod" || kind == "Deployment" || kind == "DaemonSet" || kind == "ReplicaSet" || kind == "StatefulSet"
+//@     || kind == "ReplicationController" || kind == "Job" || kind == "CronJob" || kind == "Namespace" || kind == "NetworkPolicy"
+//@     || kind == "AdminNetworkPolicy" || kind == "BaselineAdminNetworkPolicy" || kind == "Service" || kind == "Route" || kind == "Ingress"
+
+//@ func resourceInfoToK8sObject
+//@   requires info != nil && loggerOK(l)
+//@   requires dyntype(info.Object, *unstructured.Unstructured) ==> unwrap(info.Object, *unstructured.Unstructured) != nil
+//@   modifies *
+//@   ensures [C13] reported: res1 != nil ==> (res0 == nil && res1.severe && !res1.fatal)
+//@   ensures [C13] notdoc: !dyntype(info.Object, *unstructured.Unstructured) ==> res1 != nil
+//@   ensures [C13] convfail: (dyntype(info.Object, *unstructured.Unstructured) && unwrap(info.Object, *unstructured.Unstructured) != nil
+//@         && old(!convOK(unwrap(info.Object, *unstructured.Unstructured).Object)) && (res0 != nil || res1 != nil)) ==> res1 != nil
+//@   ensures [C13] converted: (res0 != nil) ==> (res1 == nil && fresh(res0) && dyntype(info.Object, *unstructured.Unstructured)
+//@         && old(convOK(unwrap(info.Object, *unstructured.Unstructured).Object)) && usedKind(res0.Kind))
